@@ -36,6 +36,8 @@ import (
 	"os"
 	"strings"
 
+	"github.com/smallstep/certificates/authority"
+	"github.com/smallstep/certificates/authority/provisioner"
 	"github.com/smallstep/pkcs7"
 	smallscep "github.com/smallstep/scep"
 
@@ -68,6 +70,12 @@ type Case struct {
 	Path  string `json:"pa,omitempty"` // "" = /scep/<name> | slash | rest | deep | root | rootslash
 	PName string `json:"pn,omitempty"` // "" = the provisioner | nosuch | acmeprov | %25zz | escaped
 	Op    string `json:"op,omitempty"` // "" = PKIOperation | GetCACert | GetCACaps | none | empty | bogus | badquery
+	// the stage of the admin-database authority's life the case runs in (provisioners of CA "adm"
+	// only): mig | reload | update | restart ("" = whatever stage the authority is in)
+	Life string `json:"life,omitempty"`
+	// the seed the composed configurations rnd0… were drawn from (set on their cases, so that a
+	// replay rebuilds the same configurations)
+	Seed uint64 `json:"sd,omitempty"`
 }
 
 type world struct {
@@ -130,6 +138,11 @@ func (w *world) request(k *Case, raw []byte) (*http.Request, bool, []byte, httpS
 		name, sh.lookup = "%25zz", "badesc"
 	case "escaped": // an escaped spelling of the provisioner's own name
 		name = "%" + fmt.Sprintf("%02x", k.Prov[0]) + k.Prov[1:]
+	}
+	if ps := specByName(k.Prov); ps != nil && (k.PName == "" || k.PName == "escaped") && ps.SetAlg && ps.EncAlg > 4 {
+		// Init refused the provisioner: the collection holds a provisioner.Uninitialized, which is
+		// not a *provisioner.SCEP for lookupProvisioner
+		sh.lookup = "other"
 	}
 	path := "/scep/" + name
 	switch k.Path {
@@ -322,7 +335,8 @@ func (w *world) parseReply(k *Case, f fields, code int, body []byte) reply {
 		if len(rcpt) > 0 {
 			rc = strings.Join(rcpt, ",")
 		}
-		r.extra = fmt.Sprintf(" signer=%s enc=%s pk=%s nonce=%s rcpt=%s nrcpt=%d%s", signer, enc, pk, nonce, rc, nrcpt, issued)
+		r.extra = fmt.Sprintf(" signer=%s enc=%s pk=%s nonce=%s rcpt=%s nrcpt=%d alg=%d%s", signer, enc, pk, nonce, rc, nrcpt,
+			envelopeAlg(p7.Content), issued)
 		r.enc = enc == "1"
 		return r
 	case smallscep.FAILURE:
@@ -421,6 +435,74 @@ func (w *world) parseOther(k *Case, op string, code int, body []byte, ctype stri
 	return "badreply:unexpected200"
 }
 
+// cfgLine renders a configuration as the model's `conv` input.
+func cfgLine(ps *provSpec, via string) string {
+	alg := 2
+	if ps.SetAlg {
+		alg = ps.EncAlg
+	}
+	var caps []string
+	for _, x := range ps.Caps {
+		caps = append(caps, c.X(x))
+	}
+	return fmt.Sprintf("conv via=%s secret=%s hooks=%s forcecn=%s caps=%s incroot=%s exint=%s minlen=%d enc=%d deccert=%s deckey=%s",
+		via, c.X(ps.Secret), hookField(ps, ""), c.B(ps.ForceCN), c.List(caps), c.B(ps.IncRoot), c.B(ps.ExInt), ps.MinLen, alg,
+		c.B(ps.Dec != ""), c.B(ps.Dec == "both"))
+}
+
+// runConv: the configuration conversions on the real code.
+//
+//	CONV  the provisioner object of the configuration goes through ProvisionerToLinkedca and
+//	      ProvisionerToCertificates (via=linkedca), through its JSON form and provisioner.List's
+//	      decoder (via=json), or both, and is then initialised;
+//	LIVE  the object the admin-database authority serves under the name at the case's stage of life
+//	      (migrated on the first start, reloaded, updated through the admin methods, reloaded after a
+//	      restart) — every one of them came out of the admin database.
+//
+// Output: the property-relevant fields of the resulting object (or `uninit`).
+func (w *world) runConv(k *Case, ps *provSpec) (line, impl, specImpl, specWant string, ok bool) {
+	js, _ := json.Marshal(k)
+	tail := " case=x" + hex.EncodeToString(js)
+	if k.Op == "LIVE" {
+		return cfgLine(ps, "linkedca") + tail, fieldsOf(w.ca.liveSCEP(k.Prov)), "cfg", "cfg", true
+	}
+	via := k.HTTP
+	p, err := w.ca.buildProv(ps)
+	if err != nil {
+		return "", "", "", "", false
+	}
+	var cur provisioner.Interface = p
+	if via == "json" || via == "both" {
+		b, err := json.Marshal([]provisioner.Interface{cur})
+		if err != nil {
+			return "", "", "", "", false
+		}
+		var l provisioner.List
+		if err := json.Unmarshal(b, &l); err != nil || len(l) != 1 {
+			return cfgLine(ps, via) + tail, "undecodable", "cfg", "cfg", true
+		}
+		cur = l[0]
+	}
+	if via == "linkedca" || via == "both" {
+		lp, err := authority.ProvisionerToLinkedca(cur)
+		if err != nil {
+			return cfgLine(ps, via) + tail, "unconvertible", "cfg", "cfg", true
+		}
+		cur, err = authority.ProvisionerToCertificates(lp)
+		if err != nil {
+			return cfgLine(ps, via) + tail, "unconvertible", "cfg", "cfg", true
+		}
+	}
+	sp, isSCEP := cur.(*provisioner.SCEP)
+	if !isSCEP {
+		return cfgLine(ps, via) + tail, "nottype", "cfg", "cfg", true
+	}
+	if err := sp.Init(provisioner.Config{}); err != nil {
+		sp = nil
+	}
+	return cfgLine(ps, via) + tail, fieldsOf(sp), "cfg", "cfg", true
+}
+
 // run executes one case: (model input line, implementation output, spec projection, spec expectation)
 func (w *world) run(k *Case) (line, impl, specImpl, specWant string, ok bool) {
 	ps := specByName(k.Prov)
@@ -428,6 +510,30 @@ func (w *world) run(k *Case) (line, impl, specImpl, specWant string, ok bool) {
 		return "", "", "", "", false
 	}
 	w.ca = w.cas[ps.CA]
+	if w.ca.kind == "adm" {
+		// bring the authority to the stage of its life the case belongs to (a replayed case of an
+		// earlier stage gets a fresh authority)
+		if k.Life != "" && lifeOrder[w.ca.life] > lifeOrder[k.Life] {
+			fresh, err := newTestCA("adm", w.ca.hooks)
+			if err != nil {
+				return "", "", "", "", false
+			}
+			w.ca.close()
+			w.cas["adm"], w.ca = fresh, fresh
+		}
+		if k.Life != "" {
+			if err := w.ca.advance(k.Life); err != nil {
+				fmt.Fprintln(os.Stderr, "life cycle:", err)
+				return "", "", "", "", false
+			}
+		}
+		if cur := w.ca.cur[k.Prov]; cur != nil {
+			ps = cur
+		}
+	}
+	if k.Op == "CONV" || k.Op == "LIVE" {
+		return w.runConv(k, ps)
+	}
 	raw, err := w.build(k)
 	if err != nil {
 		return "", "", "", "", false
@@ -441,9 +547,9 @@ func (w *world) run(k *Case) (line, impl, specImpl, specWant string, ok bool) {
 	line = modelLine(f, ps, httpOK, sh, w.ca) + " case=x" + hex.EncodeToString(js)
 
 	w.ca.hooks.reset()
-	before := w.ca.store.count()
+	before := w.ca.count()
 	code, body, ctype, crashed := w.serve(req)
-	stored := w.ca.store.count() - before
+	stored := w.ca.count() - before
 	hs := w.ca.hooks.snapshot()
 	calls, last, seen := hs.calls, hs.last, hs.seen
 	var r reply
@@ -756,6 +862,47 @@ func corner() []*Case {
 	}
 	add(Case{Prov: "ehook", MT: "19", HasC: true, Chal: hookSecret})
 	add(Case{Prov: "ehook", MT: "17", HasC: true, Chal: "no"})
+	// ---- configuration conversions: every configuration through linkedca, JSON, both
+	for i := range provSpecs {
+		for _, via := range []string{"linkedca", "json", "both"} {
+			add(Case{Prov: provSpecs[i].Name, MT: "19", Op: "CONV", HTTP: via})
+		}
+	}
+	// ---- webhooks of other kinds; Init options
+	for _, pn := range []string{"henr", "hbogus", "palg0", "palg4", "pbadalg"} {
+		for _, mt := range []string{"19", "18"} {
+			add(Case{Prov: pn, MT: mt})
+			add(Case{Prov: pn, MT: mt, HTTP: "get", HasC: true, Chal: staticSecret})
+		}
+		add(Case{Prov: pn, MT: "19", HasC: true, Chal: staticSecret, Key: "rsa1024"})
+		add(Case{Prov: pn, MT: "19", HTTP: "get", Op: "GetCACert"})
+		add(Case{Prov: pn, MT: "19", HTTP: "get", Op: "GetCACaps"})
+	}
+	// ---- the authority with the admin database, through its life: first start (migration of the
+	// ca.json provisioners), reload, update through the admin methods, restart on the same database
+	for _, life := range []string{"mig", "reload", "update", "restart"} {
+		for _, pn := range []string{"astatic", "ahdeny", "ahmn", "apdec", "aforce", "ahssh"} {
+			add(Case{Prov: pn, MT: "19", Op: "LIVE", Life: life})
+			right := staticSecret
+			if life == "update" || life == "restart" {
+				if pn == "astatic" {
+					right = "n3w-secret"
+				}
+			}
+			if pn == "ahmn" || (pn == "ahssh" && (life == "update" || life == "restart")) {
+				right = hookSecret
+			}
+			for _, mt := range []string{"19", "18"} {
+				add(Case{Prov: pn, MT: mt, Life: life})
+				add(Case{Prov: pn, MT: mt, Life: life, HasC: true, Chal: right})
+				add(Case{Prov: pn, MT: mt, Life: life, HTTP: "get", HasC: true, Chal: staticSecret})
+				add(Case{Prov: pn, MT: mt, Life: life, HTTP: "get", HasC: true, Chal: "wrong"})
+			}
+			add(Case{Prov: pn, MT: "19", Life: life, HTTP: "get", Op: "GetCACert"})
+			add(Case{Prov: pn, MT: "19", Life: life, HTTP: "get", Op: "GetCACaps"})
+			add(Case{Prov: pn, MT: "19", Life: life, HasC: true, Chal: right, Subj: 3})
+		}
+	}
 	// ---- names of the issued certificate
 	for subj := 0; subj <= 8; subj++ {
 		add(Case{Prov: "static", MT: "19", HasC: true, Chal: staticSecret, Subj: subj})
@@ -905,22 +1052,45 @@ func Run(mode string) {
 	if mode == "model" && *replay == "" {
 		o.Case("facts", extractFacts())
 		o.Case("wiring", extractWiring())
+		o.Case("convfacts", extractConvFacts())
 	}
 
+	specSeed := c.Seed()
+	if *replay != "" {
+		if data, err := os.ReadFile(*replay); err == nil {
+			for _, l := range strings.Split(string(data), "\n") {
+				if i := strings.Index(l, "case=x"); i >= 0 {
+					h := l[i+6:]
+					if j := strings.IndexAny(h, " \t"); j >= 0 {
+						h = h[:j]
+					}
+					var k Case
+					if js, err := hex.DecodeString(h); err == nil && json.Unmarshal(js, &k) == nil && k.Seed != 0 {
+						specSeed = k.Seed
+					}
+				}
+			}
+		}
+	}
+	provSpecs = append(provSpecs, randomSpecs(specSeed)...)
 	log.SetOutput(io.Discard) // the authority logs its SCEP validation findings; they are observed, not read
 	hooks := &hookServer{perID: map[string]int{}}
 	hooks.srv = httptest.NewServer(http.HandlerFunc(hooks.handle))
 	defer hooks.srv.Close()
 	cas := map[string]*testCA{}
-	for _, kind := range []string{"", "ec"} {
+	for _, kind := range []string{"", "ec", "adm"} {
 		ca, err := newTestCA(kind, hooks)
 		if err != nil {
 			fmt.Fprintln(os.Stderr, "CA setup:", err)
 			os.Exit(2)
 		}
-		defer ca.close()
 		cas[kind] = ca
 	}
+	defer func() {
+		for _, ca := range cas {
+			ca.close()
+		}
+	}()
 	ca := cas[""]
 	cl, err := newClients(thorough)
 	if err != nil {
@@ -932,6 +1102,9 @@ func Run(mode string) {
 	initLines := func() {
 		for i := range provSpecs {
 			ps := &provSpecs[i]
+			if ps.CA == "adm" {
+				continue // those objects are made by the conversion from the admin database
+			}
 			o.Case(fmt.Sprintf("init inits=%d secret=%s hooks=%s", ps.PreInits+1, c.X(ps.Secret), hookField(ps, "")),
 				"init webhooks="+cas[ps.CA].webhooksAfterInit(ps.Name))
 		}
@@ -940,6 +1113,9 @@ func Run(mode string) {
 		initLines()
 	}
 	emit := func(k *Case) {
+		if strings.HasPrefix(k.Prov, "rnd") && k.Seed == 0 {
+			k.Seed = specSeed
+		}
 		if ps := specByName(k.Prov); mode == "spec" && ps != nil && ps.CornerOnly {
 			return // the slow webhook-retry configurations are driven in stage pkiop only
 		}
@@ -962,6 +1138,10 @@ func Run(mode string) {
 		for _, l := range strings.Split(string(data), "\n") {
 			if strings.HasPrefix(l, "facts") && mode == "model" {
 				o.Case("facts", extractFacts())
+				continue
+			}
+			if strings.HasPrefix(l, "convfacts") && mode == "model" {
+				o.Case("convfacts", extractConvFacts())
 				continue
 			}
 			if strings.HasPrefix(l, "wiring") && mode == "model" {
